@@ -48,6 +48,7 @@ type fakeBottom struct {
 	writes    int
 	closes    int
 	rx        chan rxPacket
+	wildcard  bool // bound to the unspecified address: the mux then serves both IP families
 }
 
 func newFakeBottom(block bool) *fakeBottom {
@@ -148,7 +149,13 @@ func (f *fakeBottom) Close() error {
 
 	return nil
 }
-func (f *fakeBottom) LocalAddr() net.Addr             { return &net.UDPAddr{IP: net.ParseIP("10.0.0.1"), Port: 7000} }
+func (f *fakeBottom) LocalAddr() net.Addr {
+	if f.wildcard {
+		return &net.UDPAddr{IP: net.IPv4zero, Port: 7000}
+	}
+
+	return &net.UDPAddr{IP: net.ParseIP("10.0.0.1"), Port: 7000}
+}
 func (f *fakeBottom) SetDeadline(time.Time) error     { return nil }
 func (f *fakeBottom) SetReadDeadline(time.Time) error { return nil }
 
@@ -264,13 +271,20 @@ func c13refcount() zzmc.Scenario {
 		MaxSteps: 1200,
 		Setup: func(s *zzmc.Sched) func(string) (string, string) {
 			fb := newFakeBottom(false)
-			m := NewUDPMuxDefault(UDPMuxParams{UDPConn: fb, Logger: nopLogger{}})
+			fb.wildcard = true
+			m := NewUDPMuxDefault(UDPMuxParams{UDPConn: fb, Logger: nopLogger{}, Net: vNet{}})
 			h1, err := m.GetConn("u1", fb.LocalAddr())
 			if err != nil {
 				panic(err)
 			}
 			h2, _ := m.GetConn("u1", fb.LocalAddr())
 			other, _ := m.GetConn("u2", fb.LocalAddr())
+			// the same ufrag in the other IP family is a connection of its own, with its own references
+			six, err := m.GetConn("u1", &net.UDPAddr{IP: net.ParseIP("2001:db8::1"), Port: 7000})
+			if err != nil {
+				panic(err)
+			}
+			under6 := m.connsIPv6["u1"]
 			under := m.connsIPv4["u1"]
 			dst := &net.UDPAddr{IP: net.ParseIP("10.0.0.9"), Port: 9}
 			fail := ""
@@ -353,6 +367,21 @@ func c13refcount() zzmc.Scenario {
 				if _, err := other.WriteTo([]byte("z"), dst); err != nil {
 					fail += "OTHER-UFRAG-BROKEN:" + err.Error() + " "
 				}
+				// ... and so is the IPv6 connection of the same ufrag: its only handle is still open
+				select {
+				case <-under6.CloseChannel():
+					fail += "IPV6-CONNECTION-OF-THE-UFRAG-CLOSED-WITH-ITS-HANDLE-OPEN "
+				default:
+				}
+				if _, err := six.WriteTo([]byte("6"), &net.UDPAddr{IP: net.ParseIP("2001:db8::9"), Port: 9}); err != nil {
+					fail += "IPV6-HANDLE-BROKEN:" + err.Error() + " "
+				}
+				m.mu.Lock()
+				if m.connsIPv6["u1"] != under6 {
+					fail += "IPV6-CONNECTION-OF-THE-UFRAG-UNREGISTERED "
+				}
+				m.mu.Unlock()
+				_ = six.Close()
 				out := fmt.Sprintf("r1=%v r2=%v w2=%v", r1err, r2err, w2err)
 				_ = other.Close()
 				_ = m.Close()
